@@ -219,7 +219,8 @@ impl Prop for C03 {
 // ------------------------------------------------------------------ C04
 
 pub struct C04;
-pub const C04_CLASSES: [&str; 19] = [
+pub const C04_CLASSES: [&str; 20] = [
+    "balance-constructor-wrong",
     "closing-signature-not-on-ledger-state",
     "honest-establish-refused",
     "honest-payment-refused",
